@@ -207,7 +207,7 @@ class n0dict_(n0dict__):
                         json_convention=json_convention,
                         skip_empty_arrays=skip_empty_arrays,
                         show_item_count=False,
-        )
+        ) or "{}"  # skip_empty_arrays: nothing left to print
 
 
 ################################################################################
